@@ -927,6 +927,11 @@ func (as *AbacoSource) Sample() error {
 
 	as.sampleRate = 0
 	for _, group := range as.groups {
+		// A group that contributed fewer than 2 timestamped packets to the sample has no measured
+		// rate (zero): it cannot disagree with the others.
+		if group.sampleRate == 0 {
+			continue
+		}
 		if as.sampleRate == 0 {
 			as.sampleRate = group.sampleRate
 		}
